@@ -18,6 +18,9 @@ fn self_test() {
     if let Err(e) = oracle::xml::self_test() {
         harness_error(&e);
     }
+    if let Err(e) = oracle::sig::self_test() {
+        harness_error(&e);
+    }
     if let Err(e) = monitor::self_tests() {
         harness_error(&e);
     }
